@@ -271,6 +271,89 @@ pub fn clash_cases(first: usize) -> Vec<(String, Vec<(ItemPath, Module)>, usize)
     out
 }
 
+/// Every combination of markers on an embedded item and on the type embedding it: whatever is
+/// accepted must give derives the compiler can satisfy.
+pub fn marker_matrix_cases(first: usize) -> Vec<(String, Vec<(ItemPath, Module)>, usize)> {
+    let mut out = vec![];
+    for inner_enum in [false, true] {
+        for inner_mark in 0..3usize {
+            for outer_mark in 0..3usize {
+                for packed in [false, true] {
+                    for defaultable in 0..3usize {
+                        for shape in 0..3usize {
+                            for cross in [false, true] {
+                                let id = format!("k{}_", first + out.len());
+                                let mark = |k: usize| -> Vec<Attribute> {
+                                    match k {
+                                        1 => vec![Attribute::cloneable()],
+                                        2 => vec![Attribute::copyable()],
+                                        _ => vec![],
+                                    }
+                                };
+                                let mut ia = mark(inner_mark);
+                                // 0: neither defaultable, 1: both, 2: only the outer one
+                                if defaultable == 1 {
+                                    ia.push(Attribute::defaultable());
+                                }
+                                let inner = if inner_enum {
+                                    ItemDefinition::new(
+                                        (Visibility::Public, "Inner"),
+                                        EnumDefinition::new(
+                                            Type::ident("u8"),
+                                            [EnumStatement::field("A").with_attributes(if defaultable == 1 { vec![Attribute::default()] } else { vec![] }), EnumStatement::field("B")],
+                                            Attributes(ia),
+                                        ),
+                                    )
+                                } else {
+                                    ia.push(Attribute::align(1));
+                                    ItemDefinition::new((Visibility::Public, "Inner"), TypeDefinition::new([TypeStatement::field((Visibility::Public, "a"), Type::ident("u8"))]).with_attributes(Attributes(ia)))
+                                };
+                                let mut oa = mark(outer_mark);
+                                if defaultable >= 1 {
+                                    oa.push(Attribute::defaultable());
+                                }
+                                if packed {
+                                    oa.push(Attribute::packed());
+                                } else {
+                                    oa.push(Attribute::align(8));
+                                }
+                                let fty = match shape {
+                                    0 => Type::ident("Inner"),
+                                    1 => Type::ident("Inner").array(3),
+                                    _ => Type::ident("Inner").const_pointer(),
+                                };
+                                // sizes: value 1, array 3, pointer 8; pad to 16 with an explicit size
+                                let outer = ItemDefinition::new(
+                                    (Visibility::Public, "Outer"),
+                                    TypeDefinition::new([
+                                        TypeStatement::field((Visibility::Public, "len"), Type::ident("u64")),
+                                        TypeStatement::field((Visibility::Public, "inner"), fty),
+                                    ])
+                                    .with_attributes(Attributes({
+                                        let mut a = oa;
+                                        a.push(Attribute::size(16));
+                                        a
+                                    })),
+                                );
+                                let mods = if cross {
+                                    vec![
+                                        (ItemPath::from(format!("{id}mi").as_str()), Module::new().with_definitions([inner])),
+                                        (ItemPath::from(format!("{id}mo").as_str()), Module::new().with_uses([ItemPath::from(format!("{id}mi::Inner").as_str())]).with_definitions([outer])),
+                                    ]
+                                } else {
+                                    vec![(ItemPath::from(format!("{id}mm").as_str()), Module::new().with_definitions([inner, outer]))]
+                                };
+                                out.push((id, mods, 8));
+                            }
+                        }
+                    }
+                }
+            }
+        }
+    }
+    out
+}
+
 pub fn run(ctx: &mut Ctx) {
     ctx.rule = "accepted multi-module programs from the rich generator with copyable/cloneable/defaultable drawn independently of the field types, cross-module by-value and pointer references between pub types, inheritance, singletons on types and enums, extern values, valid-Rust prologues/epilogues, plus dedicated marker/packed/enum-singleton/repeated-discriminant cases; every output must parse with syn and the assembled crate (module tree mirroring the input, extern types supplied as Copy+Clone+Default structs, ABI strings normalised) must pass rustc --emit=metadata on the host; the struct/enum definitions must also compile with nightly for i686-pc-windows-msvc. non-trivial = accepted program with >=2 modules and >=1 cross-module reference, or a dedicated case; distinct by structural hash".into();
     ctx.assumptions.push("documented fragment: power-of-two alignments, arrays and gaps of at most 32 bytes in defaultable types, only pub types referenced across modules, integer enum bases".into());
@@ -310,6 +393,9 @@ pub fn run(ctx: &mut Ctx) {
     let sp = special_cases(seed, inputs.len(), ctx.tier.pick(300, 4000));
     ctx.count("dedicated_cases", sp.len() as u64);
     inputs.extend(sp);
+    let mm = marker_matrix_cases(inputs.len());
+    ctx.count("marker_matrix_cases", mm.len() as u64);
+    inputs.extend(mm);
     let cl = clash_cases(inputs.len());
     ctx.count("name_clash_cases", cl.len() as u64);
     inputs.extend(cl);
